@@ -278,6 +278,10 @@ def _check(pid, tier, tag, plan):
     r = _model_check(pid, _cfg("mc" + pid, mode="mc", **mc), mc["ops"], workers=min(JOBS, 10),
                      timeout=3000 if thorough else 900)
     log("%s: model checked %d distinct states (%d generated, depth %d) in %.0fs" % (pid, r.distinct, r.generated, r.depth, r.wall))
+    mc2 = None
+    if plan.get("mc2"):
+        mc2 = _model_check(pid, _cfg("mcb" + pid, mode="mc", **plan["mc2"]), [], workers=min(JOBS, 10), timeout=3000)
+        log("%s: deeper focused model check: %d distinct states (depth %d) in %.0fs" % (pid, mc2.distinct, mc2.depth, mc2.wall))
     # 2. behaviours
     beh = os.path.join(wd, "behaviours.ndjson")
     nbeh = 0
@@ -336,7 +340,7 @@ def _check(pid, tier, tag, plan):
     samples += list(nth_lines(beh, [nbeh // 2, nbeh]).values())
     rc = out.finish()
     cov = {
-        "states": max(r.distinct, 1), "transitions": max(r.generated, 1),
+        "states": max(r.distinct, 1) + (mc2.distinct if mc2 else 0), "transitions": max(r.generated, 1) + (mc2.generated if mc2 else 0),
         "traces_validated_against_impl": nruns,
         "samples": [{"cfg": s["cfg"], "steps": [{k: v for k, v in x.items() if k != "e"} for x in s["steps"]]} for s in samples],
         "exhaustive": False,
@@ -350,8 +354,10 @@ def _check(pid, tier, tag, plan):
         "known_finding_hits": dict(out.known_hits),
         "explanation": plan["explanation"],
     }
+    cov["element_level_wall_s"] = round(time.time() - t0, 1)
     extra = plan.get("extra")
     if extra:
+        log("%s: element level done in %.0fs; running the arena component's memory-level half" % (pid, time.time() - t0))
         nv = len(out.violations)
         cov.update(extra(tier, out) or {})
         if len(out.violations) > nv:      # the arena half added violations: print them too
@@ -407,7 +413,9 @@ def check_c08(tier):
     th = tier == "thorough"
     plan = {
         "mc": dict(kinds=KINDS, zst=[False, True], lens=[0, 1, 2, 3] if th else [0, 2], spare=[0, 1], maxlen=4 if th else 3,
-                   maxids=12 if th else 8, maxops=3 if th else 2, inject=False, ops=ALL_OPS),
+                   maxids=10 if th else 8, maxops=2, inject=False, ops=ALL_OPS),
+        "mc2": dict(kinds=["V", "R"], zst=[False], lens=[2], spare=[1], maxlen=3, maxids=8, maxops=3, inject=False,
+                    ops=ALL_OPS) if th else None,
         "emits": [
             (dict(kinds=KINDS, zst=[False], lens=[0, 1, 2, 3], spare=[0, 1], maxlen=4, maxids=10, maxops=1, inject=False,
                   ops=ALL_OPS + ["early_close"], keymodes=("pair", "same") if th else ("pair",)), None, None),
@@ -450,7 +458,10 @@ def check_c16(tier):
     splits = ["split_off", "split_at", "split_ends", "split_at_spare", "partition", "merge", "box_one", "early_close"]
     plan = {
         "mc": dict(kinds=KINDS, zst=[False, True], lens=[0, 1, 2, 3, 4] if th else [0, 3], spare=[0, 2], maxlen=4,
-                   maxids=12 if th else 9, maxops=3 if th else 2, inject=False, ops=SPLIT_OPS),
+                   maxids=10 if th else 9, maxops=2, inject=False, ops=SPLIT_OPS),
+        # thorough: three operations deep on the split kinds from one length
+        "mc2": dict(kinds=sk, zst=[False, True], lens=[3], spare=[2], maxlen=4, maxids=9, maxops=3, inject=False,
+                    ops=SPLIT_OPS) if th else None,
         "emits": [
             # every split operation with every range on every length and spare capacity
             (dict(kinds=sk, zst=[False, True], lens=[0, 1, 2, 3, 4], spare=[0, 2], maxlen=4, maxids=10, maxops=1, inject=False,
